@@ -169,7 +169,8 @@ def run_case(case, ctx):
                 old = wb.arr.cfg["parity_limit"]
 
                 def eff(base, sp, lev):
-                    return base + (123562341 + sp * 634542351 + lev * 983491341) % base
+                    # (split and level are unsigned 32-bit values in the tool: the sum wraps)
+                    return base + ((123562341 + sp * 634542351 + lev * 983491341) & 0xFFFFFFFF) % base
                 pairs = [(sp, lev) for lev in range(cfga["levels"]) for sp in range(wb.arr.nsplits(lev))]
                 new = old + s["by"] * wb.arr.bs
                 for _ in range(64):
